@@ -464,6 +464,22 @@ func check(c Case) (vk.Outcome, error) {
 		if s := sgn(xsort.LessCompare(xsort.OrderedLess[int])(a, b)); s != sgn(a-b) {
 			return out, viol(c, "LessCompare(%d,%d) has sign %d", a, b, s)
 		}
+		// the same helpers under a coarse order (distinct but equivalent values) over a type that == cannot compare
+		type unc struct {
+			V int
+			S []int
+		}
+		lessU := xsort.Less[unc](func(x, y unc) bool { return x.V/2 < y.V/2 })
+		ua, ub := unc{a, []int{a}}, unc{b, []int{b, b}}
+		ca, cb := a/2, b/2
+		if xsort.Greater(lessU, ua, ub) != (ca > cb) || xsort.LessOrEqual(lessU, ua, ub) != (ca <= cb) ||
+			xsort.GreaterOrEqual(lessU, ua, ub) != (ca >= cb) || xsort.Equal(lessU, ua, ub) != (ca == cb) ||
+			xsort.Reverse(lessU)(ua, ub) != (cb < ca) {
+			return out, viol(c, "comparison helpers under a coarse order disagree for %d, %d (classes %d, %d)", a, b, ca, cb)
+		}
+		if s := sgn(xsort.LessCompare(lessU)(ua, ub)); s != sgn(ca-cb) {
+			return out, viol(c, "LessCompare under a coarse order (%d,%d) has sign %d, classes %d, %d", a, b, s, ca, cb)
+		}
 	case "SetAlgebra":
 		sets := make([]xmaps.Set[int], len(c.In2))
 		for i, s := range c.In2 {
